@@ -18,7 +18,9 @@ MODULE = "Sqfs.Props.C18"
 REQUIRED = ["Sqfs.C18.canon_eq_spec", "Sqfs.C18.canon_fails_iff_dotdot", "Sqfs.C18.canon_same_entry_and_clean",
             "Sqfs.C18.canon_length_le", "Sqfs.C18.canon_idempotent", "Sqfs.C18.sane_iff",
             "Sqfs.C18.norm_dst_le_src", "Sqfs.C18.canon_dst_le_src",
-            "Sqfs.C18.canon_inplace_memory", "Sqfs.C18.norm_inplace_memory", "Sqfs.C18.canon_inplace_eq_model"]
+            "Sqfs.C18.canon_inplace_memory", "Sqfs.C18.norm_inplace_memory", "Sqfs.C18.canon_inplace_eq_model",
+            "Sqfs.C18.canon_no_stray_slash", "Sqfs.C18.canon_components_sane", "Sqfs.C18.sane_name_is_fixed",
+            "Sqfs.C18.canon_fixed_iff_clean", "Sqfs.C18.canon_sublist", "Sqfs.C18.canon_components_sublist"]
 ALPHA = [0x2f, 0x2e, 0x61, 0xc3]
 TRUSTED = ["C strings are modelled as their bytes before the NUL; the in-place rewriting is modelled twice: functionally (read original / emit output) and as C statements over one byte array (Model/C18InPlace.lean); canon_inplace_memory proves the two equal, and the whole array after the call is compared with the real code on every run",
            "modelled: lib/util/src/canonicalize_name.c, lib/util/src/filename_sane.c (POSIX branch); the call sites that funnel names through them are enumerated from the clang AST and probed behaviourally, not proved",
